@@ -447,6 +447,16 @@ class SiteEval:
                 return OPAQUE
             target = self.repo.find(self.modname + "." + f.id)
             if isinstance(target, ast.FunctionDef) and any(self.is_term(a) or a[0] == "group" for a in args):
+                # a pure one-expression helper (`def ok(x): return RE.fullmatch(x) is not None`) is evaluated in place, so it can
+                # stand inside a condition; anything longer is inlined at statement level
+                body = [b for b in target.body if not (isinstance(b, ast.Expr) and isinstance(b.value, ast.Constant))]
+                params = [a.arg for a in target.args.args]
+                if (len(body) == 1 and isinstance(body[0], ast.Return) and body[0].value is not None and len(params) == len(args)
+                        and not target.args.vararg and not target.args.kwarg and not node.keywords):
+                    q = p.fork(env=dict(p.env))
+                    for name, val in zip(params, args):
+                        q.env[name] = val
+                    return self.eval(body[0].value, q)
                 return ("inline", target, args)
             cls_or_fn = self.resolve_global(f.id)
             if isinstance(cls_or_fn, type):
